@@ -496,7 +496,7 @@ def run_shard(spec, ctx):
                    {"part": "generated", "required": list(required), "patterns": texts, "depth_limit": depth,
                     "symbol_priority": prio})
 
-        run_given(generated_cases(), body, ctx, ctx.pick(600, 8000))
+        run_given(generated_cases(), body, ctx, ctx.pick(400, 8000))
 
 
 def replay(data, col):
